@@ -550,8 +550,8 @@ static void soundness_layer(bool big)
                                std::string(want_fail ? "signature still accepted after changing a field the hash type commits to: " : "signature rejected after changing a field the hash type does not commit to: ") + MNAME[m.t] + "[" + u(m.idx) + "] " + where);
                     }
                 }
-                // ---- signature-level tampering (shape-independent: done for the 2x2 shapes and the 1x1 shape)
-                if (!((n_in == 2 && n_out == 2) || (n_in == 1 && n_out == 1) || (big && n_in == 3 && n_out == 0))) continue;
+                // ---- signature-level tampering (largely shape-independent: 2x2, 1x1, and 2x1/nIn=1 which has no matching output)
+                if (!((n_in == 2 && n_out == 2) || (n_in == 1 && n_out == 1) || (n_in == 2 && n_out == 1 && nin == 1) || (big && n_in == 3 && n_out == 0))) continue;
                 if (!tap && !ht_sigtamper.count(ht)) continue;
                 const Bytes good = with_ht(c.sig, ht, tap);
                 for (size_t bit = 0; bit < c.sig.size() * 8; bit++) {
